@@ -587,6 +587,10 @@ class Name:
                 label = name
                 name = None
                 ind = len(label)
+            if ind > 63:
+                # The two high bits of the length octet mark a compression
+                # pointer, so a label cannot be longer than 63 octets.
+                raise ValueError(f"DNS label longer than 63 octets: {label!r}")
             strio.write(_ord2bytes(ind))
             strio.write(label)
         strio.write(b"\x00")
